@@ -30,7 +30,7 @@ type c05path struct {
 
 // rel-namesake: a client of another mount point that uses the same client identifier as the publisher releases the
 // identifier of the publisher's pending handshake
-var c05events = []string{"pub0", "pub1", "pub1-repeat", "pub1-repeat-dup", "pub2", "pub2-repeat", "pub2-repeat-dup", "rel-pending", "rel-completed", "rel-unknown", "idle", "rel-namesake"}
+var c05events = []string{"pub0", "pub1", "pub1-repeat", "pub1-repeat-dup", "pub2", "pub2-repeat", "pub2-repeat-dup", "rel-pending", "rel-completed", "rel-unknown", "idle", "rel-namesake", "rel-again"}
 
 func c05paths() []c05path {
 	var out []c05path
@@ -57,7 +57,7 @@ func c05paths() []c05path {
 			if strings.HasPrefix(e, "pub1-repeat") && !has("pub1") {
 				continue
 			}
-			if (strings.HasPrefix(e, "pub2-repeat") || e == "rel-pending" || e == "rel-completed" || e == "rel-namesake") && !has("pub2") {
+			if (strings.HasPrefix(e, "pub2-repeat") || e == "rel-pending" || e == "rel-completed" || e == "rel-namesake" || e == "rel-again") && !has("pub2") {
 				continue
 			}
 			if e == "rel-completed" && !has("rel-pending") {
@@ -143,6 +143,10 @@ func TestC05StoreBeforeAck(t *testing.T) {
 				}
 				w.Step()
 				pub.Publish("t/x", "before-anybody-subscribed", 0, false, 0)
+				for k := range p.Events {
+					// (every topic the script is going to use)
+					pub.Publish("t/"+string(rune('a'+k)), "before-anybody-subscribed", 0, false, 0)
+				}
 				w.Step()
 				var dest []uint64
 				if p.Placement == "local" || p.Placement == "both" || p.Placement == "local+two-remotes" {
@@ -315,6 +319,26 @@ func TestC05StoreBeforeAck(t *testing.T) {
 							}
 						}
 						pub.Send(&packet.PubRel{Header: &packet.Header{}, MessageId: h.ev.id})
+					case ev == "rel-again":
+						// the client sends PUBREL once more for a handshake that is over without having completed (its forward
+						// failed, or it timed out): there is nothing to release, and nothing stored to acknowledge
+						var h *hs
+						for k := len(handshakes) - 1; k >= 0; k-- {
+							if !handshakes[k].pending && !handshakes[k].completed {
+								h = handshakes[k]
+								break
+							}
+						}
+						if h == nil {
+							return
+						}
+						for _, o := range handshakes {
+							if o != h && o.ev.id == h.ev.id && (o.pending || o.completed) {
+								return // the identifier belongs to another handshake by now
+							}
+						}
+						pub.Send(&packet.PubRel{Header: &packet.Header{}, MessageId: h.ev.id})
+						rep.Extra["paths_with_release_of_a_failed_handshake"] = asInt(rep.Extra["paths_with_release_of_a_failed_handshake"]) + 1
 					case ev == "rel-namesake":
 						h := findHS(true, false)
 						if h == nil {
